@@ -46,6 +46,7 @@ def main() -> int:
             sh("git", "-C", "/repo", "checkout", "--", ".")
             for f in (ROOT / "replays").glob("*/new-*.json"):
                 f.unlink()
+            sh("git", "-C", str(ROOT), "checkout", "--", "evidence")  # evidence must describe the unchanged tree
         table[name] = entry
         print(name, entry["status"], entry.get("signatures"))
         meta_path = sdir / "meta.json"
